@@ -6,7 +6,13 @@ all well-formed operand shapes and all rational values).  Tie: correspondence of
 
 Known finding (class `simple-operands-different-affine-offsets`): for two SIMPLE operands whose units have
 different affine offsets (degC + K) a+b and b+a do not denote the same amount; Lean: `add_comm_phys_partial`
-carries the excluding hypothesis and `add_comm_affine_counterexample` is the concrete witness."""
+carries the excluding hypothesis and `add_comm_affine_counterexample` is the concrete witness.
+
+Open finding candidate (class `derived-operand-affine-unit-exponent-1`, NOT in known_findings.json): inside a
+derived operand a unit with an offset and exponent 1 is converted with its offset instead of being scaled
+((10 degC*m) + (1 m*K) = -262.15 degC.m); Lean: `add_derived_affine_counterexample`.  The model follows the code
+(stream derived-with-affine-unit of the correspondence); the failing-input sweep leaves that stream out so
+that it reports new defects first, but the oracle does flag such an input when it meets one."""
 import math
 
 import _alg_common as A
